@@ -296,6 +296,7 @@ Proof.
   - (* palette conversion *)
     apply Z.leb_le in Hc.
     assert (Hi' : 0 <= i <= 255) by lia.
+    assert (H0i : (0 <=? i) = true) by (apply Z.leb_le; lia). rewrite H0i. cbn [andb].
     destruct (convert_colour_ok i colors Hi') as (j & Hj & Hjr). rewrite Hj.
     assert (Hset : forall d, set_colour_attr d a j = pset d a (Some (VCol j None)))
       by (intro d; destruct a; try discriminate Hcol; reflexivity).
@@ -316,6 +317,7 @@ Proof.
       eexists; eexists; split; [ reflexivity | ]. right. repeat split; try reflexivity.
       rewrite Hta. discriminate.
   - (* the index is within the terminal's palette *)
+    cbn [andb].
     destruct (tp a) as [y | ] eqn:Hta.
     + destruct (colour_shape a y Hcol (Htp y eq_refl)) as (i' & sec' & ->).
       destruct (col_accessors tp a i' sec' Hcol Hta) as (Hqi & Hqs & Hqc).
